@@ -52,6 +52,7 @@ class Obligation:
     replay: Optional[dict] = None  # how to replay natively: {"mirror": name, ...}
     excluded: list = field(default_factory=list)  # known-finding ids whose class was excluded
     source: str = "property"  # property | helper
+    hints: list = field(default_factory=list)  # extra constraints tried first when searching candidate counterexamples
 
 
 class Ctx:
@@ -98,12 +99,25 @@ class Ctx:
         sv = self.sym(name, ("list", elem_ty))
         return st.alloc(ListObj(sv=sv)), sv
 
+    def sym_set_enum(self, st, name, elem_ty):
+        """a python set given by a duplicate-free symbolic enumeration `name` (so counter-models list its elements)"""
+        m = self.m
+        lst = self.sym(name, ("list", elem_ty))
+        ln, at = m.lst_funcs(elem_ty)
+        S = SV(z3.Const(name + "!set", m.sort(("set", elem_ty))), ("set", elem_ty))
+        i, j = z3.Int(f"i!{name}"), z3.Int(f"j!{name}")
+        x = z3.Const(f"x!{name}", m.sort(elem_ty))
+        st.assume(z3.ForAll([i, j], z3.Implies(z3.And(0 <= i, i < j, j < ln(lst.term)), at(lst.term, i) != at(lst.term, j))))
+        st.assume(z3.ForAll([i], z3.Implies(z3.And(0 <= i, i < ln(lst.term)), z3.Select(S.term, at(lst.term, i))), patterns=[at(lst.term, i)]))
+        st.assume(z3.ForAll([x], z3.Implies(z3.Select(S.term, x), z3.Exists([i], z3.And(0 <= i, i < ln(lst.term), at(lst.term, i) == x))), patterns=[z3.Select(S.term, x)]))
+        return st.alloc(SetObj(sv=S, enum=lst)), lst, S
+
     def assume_note(self, text):
         if text not in self.assumptions:
             self.assumptions.append(text)
 
     # -- obligations ---------------------------------------------------------------------------
-    def oblige(self, name, st_or_hyps, goal, kind="post", replay=None, exclude=None, source="property", inputs=None):
+    def oblige(self, name, st_or_hyps, goal, kind="post", replay=None, exclude=None, source="property", inputs=None, hints=None):
         hyps = list(st_or_hyps.pc) if isinstance(st_or_hyps, State) else list(st_or_hyps)
         excluded = []
         for fid, cond in (exclude or {}).items():
@@ -112,7 +126,7 @@ class Ctx:
                 excluded.append(fid)
                 self.used_findings.add(fid)
         self.obligations.append(
-            Obligation(f"{self.unit.uid}/{name}", kind, hyps, goal, dict(inputs if inputs is not None else self.inputs), replay, excluded, source)
+            Obligation(f"{self.unit.uid}/{name}", kind, hyps, goal, dict(inputs if inputs is not None else self.inputs), replay, excluded, source, list(hints or []))
         )
 
     def cover(self, name, st_or_hyps, extra=None):
@@ -206,29 +220,129 @@ def discharge(ctx: Ctx, ob: Obligation, use_cvc5_always=False) -> dict:
             rec["model"] = extract_model(ctx, s.model(), ob.inputs)
         except Exception as e:  # pylint: disable=broad-except
             rec["model_error"] = repr(e)
-    elif verdict in ("unknown", "sat"):
-        # quantified hypotheses keep z3 from confirming satisfiability: drop every quantified formula and
-        # look for a model of the ground part.  Such a model is only a *candidate* counterexample -- it
-        # counts for nothing unless the native replay confirms it on the real code.
-        g = z3.Solver()
-        g.set("timeout", ctx.timeout_ms)
-        for a in ctx.ex.axioms() + ctx.sem_axioms + ob.hyps + [z3.Not(ob.goal)]:
-            if not _has_quantifier(a):
-                g.add(a)
-        if g.check() == z3.sat:
-            try:
-                rec["model"] = extract_model(ctx, g.model(), ob.inputs)
-                rec["model_is_candidate"] = True
-                if verdict == "unknown":
-                    rec["verdict"] = "failed-candidate"
-            except Exception as e:  # pylint: disable=broad-except
-                rec["model_error"] = repr(e)
+    elif verdict in ("unknown", "sat") and ob.replay is not None:
+        # quantified hypotheses keep z3 from confirming satisfiability.  Look for *candidate* counterexamples in a
+        # bounded relaxation (index quantifiers instantiated for 0..2, list lengths <= 3, other quantifiers dropped).
+        # A candidate counts for nothing unless the native replay confirms it on the real code.
+        try:
+            cands = candidate_models(ctx, ob, 10 if ctx.timeout_ms <= 10000 else 40)
+        except Exception as e:  # pylint: disable=broad-except
+            cands = []
+            rec["model_error"] = repr(e)
+        if cands:
+            rec["candidates"] = cands
+            rec["model"] = cands[0]
+            rec["model_is_candidate"] = True
+            if verdict == "unknown":
+                rec["verdict"] = "failed-candidate"
     if ob.replay is not None:
         rec["replay"] = ob.replay
     rec["ms"] = int((time.time() - t0) * 1000)
     if rec["verdict"] != "discharged" or os.environ.get("VERIF_KEEP_SMT"):
         rec["smt2_sha"] = hashlib.sha1(s.to_smt2().encode()).hexdigest()
     return rec
+
+
+def _bounded(f, rng=(0, 1, 2), pos=True):
+    """bounded relaxation of a formula: integer-index universals (in positive polarity) are instantiated for the
+    indices in rng; every other quantified subformula is abstracted by a fresh Boolean unknown"""
+    if not _has_quantifier(f):
+        return f
+    if z3.is_quantifier(f):
+        universal = f.is_forall() if pos else f.is_exists()
+        if universal and all(f.var_sort(i) == z3.IntSort() for i in range(f.num_vars())):
+            import itertools
+
+            outs = []
+            for vals in itertools.product(rng, repeat=f.num_vars()):
+                inst = z3.substitute_vars(f.body(), *[z3.IntVal(v) for v in reversed(vals)])
+                outs.append(_bounded(inst, rng, pos))
+            return z3.And(*outs) if pos else z3.Or(*outs)
+        return z3.Bool(f"q!abs{fresh_id()}")
+    if z3.is_not(f):
+        return z3.Not(_bounded(f.arg(0), rng, not pos))
+    if z3.is_and(f):
+        return z3.And(*[_bounded(c, rng, pos) for c in f.children()])
+    if z3.is_or(f):
+        return z3.Or(*[_bounded(c, rng, pos) for c in f.children()])
+    if z3.is_implies(f):
+        return z3.Implies(_bounded(f.arg(0), rng, not pos), _bounded(f.arg(1), rng, pos))
+    if z3.is_app(f) and f.decl().kind() == z3.Z3_OP_ITE and f.sort() == z3.BoolSort() and not _has_quantifier(f.arg(0)):
+        return z3.If(f.arg(0), _bounded(f.arg(1), rng, pos), _bounded(f.arg(2), rng, pos))
+    return z3.Bool(f"q!abs{fresh_id()}")
+
+
+def _collect(f, pred, out, seen):
+    stack = [f]
+    while stack:
+        x = stack.pop()
+        if x.get_id() in seen:
+            continue
+        seen.add(x.get_id())
+        if z3.is_quantifier(x):
+            continue
+        if pred(x):
+            out.append(x)
+        stack.extend(x.children())
+
+
+def _is_enum_sort(srt):
+    return srt.kind() == z3.Z3_DATATYPE_SORT and srt.num_constructors() > 1 and all(srt.constructor(i).arity() == 0 for i in range(srt.num_constructors()))
+
+
+def candidate_models(ctx: Ctx, ob: Obligation, n: int):
+    g = z3.Solver()
+    g.set("timeout", ctx.timeout_ms)
+    fs = [_bounded(a) for a in ctx.ex.axioms() + ob.hyps] + [_bounded(z3.Not(ob.goal))]
+    lens, feats, seen1, seen2 = [], [], set(), set()
+    rec_ids = ctx.m.recognizer_ids
+    for f in fs:
+        g.add(f)
+        _collect(f, lambda x: z3.is_app(x) and x.decl().name().startswith("len_"), lens, seen1)
+        _collect(
+            f,
+            lambda x: z3.is_app(x) and x.num_args() > 0 and (_is_enum_sort(x.sort()) or (x.decl().get_id() in rec_ids)),
+            feats,
+            seen2,
+        )
+    for l in lens:
+        g.add(l >= 0, l <= 3)
+    # case splitting: an enum-valued feature value under which the obligation IS provable cannot occur in a counterexample
+    learned = []
+    enum_feats = [f for f in feats if _is_enum_sort(f.sort())][:10]
+    for f in enum_feats:
+        srt = f.sort()
+        for ci in range(srt.num_constructors()):
+            val = srt.constructor(ci)()
+            s = _mk_solver(ctx, 1500)
+            for h in ob.hyps:
+                s.add(h)
+            s.add(f == val, z3.Not(ob.goal))
+            if s.check() == z3.unsat:
+                learned.append(f != val)
+    for c in learned:
+        g.add(c)
+    feats = feats[:80]
+    out = []
+    for h in ob.hints:
+        g.push()
+        g.add(h)
+        k = 0
+        while k < 3 and g.check() == z3.sat:
+            mdl = g.model()
+            out.append(extract_model(ctx, mdl, ob.inputs))
+            k += 1
+            if not feats:
+                break
+            g.add(z3.Or(*[f != mdl.eval(f, model_completion=True) for f in feats]))
+        g.pop()
+    while len(out) < n and g.check() == z3.sat:
+        mdl = g.model()
+        out.append(extract_model(ctx, mdl, ob.inputs))
+        if not feats:
+            break
+        g.add(z3.Or(*[f != mdl.eval(f, model_completion=True) for f in feats]))
+    return out
 
 
 def _has_quantifier(e) -> bool:
@@ -325,7 +439,16 @@ def extract_model(ctx: Ctx, model, inputs: dict, max_len=6) -> dict:
             _s, _mk, accs = m.tuple_parts(ty)
             return [conv(a(t), x, depth + 1) for a, x in zip(accs, ty[1:])]
         if isinstance(ty, tuple) and ty[0] == "set":
-            return {"set": str(ev(t))[:400]}
+            arr = ev(t)
+            elems = []
+            default = None
+            while z3.is_app(arr) and arr.decl().kind() == z3.Z3_OP_STORE:
+                if z3.is_true(arr.arg(2)):
+                    elems.append(conv(arr.arg(1), ty[1], depth + 1))
+                arr = arr.arg(0)
+            if z3.is_app(arr) and arr.decl().kind() == z3.Z3_OP_CONST_ARRAY:
+                default = z3.is_true(arr.arg(0))
+            return {"set": elems, "default": default, "raw": str(arr)[:200] if default is None else None}
         return str(ev(t))[:200]
 
     out = {}
